@@ -353,14 +353,13 @@ def hashed(items, salt):
 
 def orders(branches, tags, salt, full=False):
     """Discovery orders of one case."""
-    if full and len(branches) <= 4:
-        tos = (list(tags), list(reversed(tags)), hashed(tags, salt))
+    tos = (list(tags), list(reversed(tags)), hashed(tags, salt + 1))
+    yield list(branches), tos[0]
+    yield list(reversed(branches)), tos[1]
+    yield hashed(branches, salt), tos[2]
+    if full and 2 <= len(branches) <= 4:
         for k, bo in enumerate(itertools.permutations(branches)):
             yield list(bo), tos[k % 3]
-        return
-    yield list(branches), list(tags)
-    yield list(reversed(branches)), list(reversed(tags))
-    yield hashed(branches, salt), hashed(tags, salt + 1)
 
 
 def norm(out):
@@ -453,7 +452,7 @@ class Shard:
         sig = {'clause': clause, 'detail': detail,
                'dst_kind': parse_branch(dst)[0]}
         case = {'branches': list(branches), 'tags': list(tags), 'dst': dst,
-                'salt': self.salt}
+                'salt': self.salt, 'discovery': [list(bo), list(to)]}
         msg = ('cascade: branches=%s tags=%s dst=%s (discovery order %s / %s)'
                ': statement wants %s; code gave %s [%s]'
                % (sorted(branches), sorted(tags), dst, bo, to, want, out,
@@ -889,7 +888,10 @@ def replay(ctx, case, acc):
     i = analyse(br, tg)
     v = expect(i, dst)
     first = None
-    for bo, to in orders(br, tg, sh.salt, full=True):
+    todo = list(orders(br, tg, sh.salt, full=True))
+    if case.get('discovery'):
+        todo.insert(0, tuple(case['discovery']))
+    for bo, to in todo:
         out = run_real(bo, to, dst)
         bad = judge(i, v, dst, out)
         if bad:
